@@ -36,11 +36,18 @@ def _dump(n):
     return ast.dump(n, annotate_fields=True, include_attributes=False)
 
 
-def _parse_old(old):
+def _parse_old(old, new=None):
     old = textwrap.dedent(old).strip('\n')
+    new_is_expr = True
+    if new is not None:
+        try:
+            ast.parse(textwrap.dedent(new).strip(), mode='eval')
+        except SyntaxError:
+            new_is_expr = False
     try:
         e = ast.parse(old.strip(), mode='eval').body
-        return 'expr', [e]
+        if new_is_expr:
+            return 'expr', [e]
     except SyntaxError:
         pass
     try:
@@ -106,7 +113,7 @@ def apply_edit(src, scope, old, new, occurrence=0):
     sc = _scope_node(tree, scope)
     if sc is None:
         raise EditError('scope %s not found' % scope)
-    kind, want = _parse_old(old)
+    kind, want = _parse_old(old, new)
     data = src.encode('utf-8')
     offs = _line_offsets(src)
     if kind == 'expr':
